@@ -92,6 +92,8 @@ class ModuleInfo(object):
         self.relpath = relpath
         self.src = src
         self.tree = ast.parse(src, filename=path)
+        from .normalize import normalize_tree
+        normalize_tree(self.tree)     # behaviour-preserving normal form (single-use temporaries, dead locals, spelled-out augmented assignments)
         self.funcs = {}
         self.classes = {}
         self.imports = {}      # local name -> ('module', modname) | ('symbol', modname, name)
